@@ -1,4 +1,5 @@
 import Proofs.KNCount
+import Proofs.KNBlocks
 /-!
 # C07 — Estimation result is independent of memory budget, block sizes and scheduling
 
@@ -225,5 +226,22 @@ def exOpts : Opts := { cfg := { order := 2, thr := fun _ => 0, excl := fun _ => 
 example : lmplzOut exImpl 1 () exOpts exCorpus = lmplzOut exImpl 100 () exOpts exCorpus :=
   lmplz_indep exImpl id (fun t => t) exOpts (by decide) exCorpus (fun _ => rfl) (by decide)
     (fun _ _ _ => rfl) (fun _ _ _ => rfl) 1 100 () ()
+
+/-! ## chain block boundaries inside the pipeline: the two compacting iterators -/
+
+open KV.KN.Blocks in
+/-- `CollapseStream` compacts every chain block in place; whatever the block boundaries are,
+the records that flow on are the same multiset (they are sorted again afterwards) -/
+theorem collapse_partition_indep {α : Type} [Inhabited α] (p : α → Bool) (bs₁ bs₂ : List (List α))
+    (h : bs₁.flatten = bs₂.flatten) :
+    (collapseStream p bs₁).2.Perm (collapseStream p bs₂).2 :=
+  collapseStream_partition p bs₁ bs₂ h
+
+open KV.KN.Blocks in
+/-- `PruneNGramStream` (repaired) drops the marked records block by block; the output stream does
+not depend on the block boundaries -/
+theorem prune_partition_indep {β : Type} (f : KV.KN.Emit → β) (bs₁ bs₂ : List (List KV.KN.Emit))
+    (h : bs₁.flatten = bs₂.flatten) : pruneStream true f bs₁ = pruneStream true f bs₂ := by
+  rw [pruneStream_fixed, pruneStream_fixed, h]
 
 end KV.C07
